@@ -118,11 +118,11 @@ Qed.
 Lemma pj_complete_iter c0 c3 d rd p t : rs_state_fn cb g (c_out_state c0) c0 = rs_response_complete cb g c3 ->
   pj_cin c3 d rd p None RES_FINALIZE (Some RES_FINALIZE) None t ->
   t_res_cep t = c_HTP_COMPRESSION_NONE -> (t_response_transfer_coding t =? c_HTP_CODING_NO_BODY)%Z = false ->
-  (t_response_progress t =? c_HTP_RESPONSE_COMPLETE)%Z = false -> t_request_progress t = c_HTP_REQUEST_COMPLETE ->
+  (t_response_progress t =? c_HTP_RESPONSE_COMPLETE)%Z = false ->
   exists c', sr_iter cb g c0 = inr c' /\ pj_done w c' d rd p (Some (sr_tcomplete t)).
 Proof.
-  intros Ef H3 Hcep Hcod Hprog Hreq.
-  destruct (pj_response_complete cb g Hcb Had c3 d _ _ _ t H3 Hcep Hcod Hprog Hreq) as (c4 & E4 & [B1 B2 B3 B4 B5 B6 B7 B8 B9 B10]).
+  intros Ef H3 Hcep Hcod Hprog.
+  destruct (pj_response_complete cb g Hcb Had c3 d _ _ _ t H3 Hcep Hcod Hprog) as (c4 & E4 & [B1 B2 B3 B4 B5 B6 B7 B8 B9 B10]).
   unfold sr_iter. rewrite Ef, E4.
   destruct H3 as [C1 C2 C3 C4 C5 C6 C7 C8 C9 C10 C11 C12 C13 C14 C15 C16 C17 C18 C19].
   rewrite B3, (sg_live_tunnel _ C1).
@@ -161,10 +161,10 @@ Lemma pj_finalize_next c d rd p t u1 u2 l : pj_cin c d rd p None RES_FINALIZE (S
   (rd = 0%nat \/ p = []) -> skipn rd d = u1 ++ LF :: u2 -> sg_no_lf u1 = true -> p ++ u1 ++ [LF] = 72%N :: 84%N :: 84%N :: 80%N :: l ->
   (length (p ++ u1 ++ [LF]) <= g_field_limit_hard g)%nat ->
   t_res_cep t = c_HTP_COMPRESSION_NONE -> (t_response_transfer_coding t =? c_HTP_CODING_NO_BODY)%Z = false ->
-  (t_response_progress t =? c_HTP_RESPONSE_COMPLETE)%Z = false -> t_request_progress t = c_HTP_REQUEST_COMPLETE ->
+  (t_response_progress t =? c_HTP_RESPONSE_COMPLETE)%Z = false ->
   exists c', sr_iter cb g c = inr c' /\ pj_done w c' d rd p (Some (sr_tcomplete t)).
 Proof.
-  intros H Hc Htop Hu Hnl Hsh Hlim Hcep Hcod Hprog Hreq.
+  intros H Hc Htop Hu Hnl Hsh Hlim Hcep Hcod Hprog.
   assert (Hlt : (rd < length d)%nat).
   { destruct (Nat.lt_ge_cases rd (length d)) as [L|L]; [exact L|]. rewrite skipn_all2 in Hu by lia. destruct u1; discriminate. }
   destruct (nth_error d rd) as [b|] eqn:Nb; [|apply nth_error_None in Nb; lia].
